@@ -41,7 +41,7 @@ def vname(v):
 
 def make_schema(kind):
     import pyarrow as pa
-    if kind == 'ids':
+    if kind in ('ids', 'ids-const', 'ids-period'):
         return pa.schema([('id', pa.int64())])
     if kind == 'flat':
         return pa.schema([('id', pa.int64()), ('s', pa.string()), ('f', pa.float64()),
@@ -66,6 +66,10 @@ def make_rows(kind, n, rowseed):
     for i in range(1, n + 1):
         if kind == 'ids':
             rows.append({'id': i})
+        elif kind == 'ids-const':        # equal rows (a constant reading)
+            rows.append({'id': 7})
+        elif kind == 'ids-period':       # a periodic signal: batches with equal content
+            rows.append({'id': 1 + i % (1 + rowseed % 3)})
         elif kind == 'flat':
             rows.append({'id': i, 's': rng.choice(_WORDS),
                          'f': rng.choice([0.0, -0.0, 1.5, -2.25, 1e300, 5e-324, 0.1, float(i)]),
@@ -111,6 +115,14 @@ def ident(row, rows):
     if type(rid) is int and 1 <= rid <= len(rows) and rows[rid - 1] == row:
         return rid
     return 0
+
+
+def ident_seq(seq, rows, kind):
+    """source-row ids of a sequence of rows read back.  Rows that carry no unique id are
+    identified by their position (row j must equal source row j)."""
+    if kind in ('ids-const', 'ids-period'):
+        return [j + 1 if j < len(rows) and seq[j] == rows[j] else 0 for j in range(len(seq))]
+    return [ident(r, rows) for r in seq]
 
 
 # ---------------------------------------------------------------- real code driver
@@ -226,7 +238,7 @@ def execute(case, tmpdir):
     try:
         s = src()
         table = pq.read_table(s)
-        file_ids = [ident(r, rows) for r in table.to_pylist()]
+        file_ids = ident_seq(table.to_pylist(), rows, kind)
         if mode == 'fileobj':
             s.close()
         s = src()
@@ -254,7 +266,7 @@ def execute(case, tmpdir):
             s.close()
     if load_state[0] != 'completed':
         ended.append('load-' + load_state[0])
-    loaded_ids = [ident(r, rows) for r in loaded]
+    loaded_ids = ident_seq(loaded, rows, kind)
     tr = dict(case)
     tr.update({'file': enc_ids(file_ids), 'loaded': enc_ids(loaded_ids),
                'recs': obs.sizes[:CAP_RECS], 'nrecs': len(obs.sizes),
@@ -419,7 +431,7 @@ def random_cases(rng, nrand, thorough):
                         rng.randint(1, 2000)])
         if N > 1500 and m < 5:
             m = rng.randint(5, 2000)
-        kind = rng.choice(['ids', 'flat', 'nested'])
+        kind = rng.choice(['ids', 'flat', 'nested', 'ids-const', 'ids-period'])
         if kind == 'nested' and N > 600 and (not thorough or rng.random() < 0.7):
             kind = 'flat'           # python-side conversion of nested rows is slow
         cases.append(mk_case(
